@@ -107,7 +107,7 @@ func NewPositionRange(lines []string, val *yaml.Node, minColumn int) (offsets Po
 		// Append new line but only if the previous line break is a part of the value.
 		// A line break followed by empty lines is folded into fewer characters
 		// in plain, quoted and folded scalars.
-		if len(offsets) > 0 && lineBreak {
+		if lineBreak {
 			offsets = appendPosition(offsets, lineIndex-1, len(lines[lineIndex-2])+1)
 		}
 		lineBreak = false
